@@ -1,5 +1,5 @@
 From Coq Require Import String Bool ZArith QArith Qabs Lia List.
-From Splinkv Require Import Model.Backends.
+From Splinkv Require Import Base.TV Model.SqlExpr Model.Levels Proofs.LevelsP Model.Backends.
 Import ListNotations.
 Local Open Scope Q_scope.
 
@@ -109,4 +109,39 @@ Proof.
       assert (A : 1 - t + t == 1) by ring. assert (B : 1 - s + s == 1) by ring.
       rewrite B. rewrite A in E2. rewrite Qplus_comm. exact E2. }
     apply Qle_bool_iff in H. congruence.
+Qed.
+
+(* ---- renaming by synonyms preserves meaning when the interpretation respects the table ---- *)
+Definition respects (fenv : string -> list val -> val) (syn : list (string * string)) : Prop :=
+  forall f args, fenv (canon syn f) args = fenv f args.
+
+Lemma eval_rename P fenv env syn : respects fenv syn -> forall e, eval P fenv env (rename syn e) = eval P fenv env e.
+Proof.
+  intros Hr e. induction e using expr_ind2; cbn [rename eval]; try congruence.
+  - rewrite IHe. clear IHe. induction H as [|[c v] t [Hc Hv] Ht IH]; cbn [map]; [reflexivity|].
+    cbn [fst snd] in *. rewrite Hc, Hv, IH. reflexivity.
+  - rewrite Hr. f_equal. induction H as [|x t Hx Ht IH]; cbn [map]; [reflexivity|]. now rewrite Hx, IH.
+  - rewrite IHe1, IHe2. destruct (eval P fenv env e1); try reflexivity. destruct (eval P fenv env e2); try reflexivity.
+    f_equal. apply map_ext. intros xy. apply Hr.
+Qed.
+
+Lemma same_modulo_sound syn e1 e2 : same_modulo syn e1 e2 = true ->
+  forall P fenv env, respects fenv syn -> eval P fenv env e1 = eval P fenv env e2.
+Proof.
+  unfold same_modulo. intros H P fenv env Hr. apply expr_eqb_eq in H.
+  rewrite <- (eval_strip P fenv env e1), <- (eval_strip P fenv env e2).
+  rewrite <- (eval_rename P fenv env syn Hr (strip e1)), <- (eval_rename P fenv env syn Hr (strip e2)).
+  now rewrite H.
+Qed.
+
+(* the table is verified against the executable interpretation: each synonym has the same meaning as its canonical name *)
+Lemma std_fenv_respects_synonyms : respects (std_fenv []) synonyms.
+Proof.
+  intros f args. unfold synonyms. cbn [canon].
+  destruct (String.eqb_spec f "jaro_sim") as [->|N1]; [reflexivity|].
+  destruct (String.eqb_spec f "jaro_winkler") as [->|N2]; [reflexivity|].
+  destruct (String.eqb_spec f "size") as [->|N3]; [reflexivity|].
+  destruct (String.eqb_spec f "array_intersect") as [->|N4]; [reflexivity|].
+  destruct (String.eqb_spec f "unix_timestamp") as [->|N5]; [reflexivity|].
+  reflexivity.
 Qed.
